@@ -9,27 +9,27 @@ Import ListNotations.
 Section C14.
   Variable prec : positive.
   Let dec := dec_exp prec.
-  Variables (inmem : bool) (prof : list XQ) (n_req budget maxiter first : nat) (steps : list (nat * list Q)).
+  Variables (inmem : bool) (prof : list XQ) (n_req budget maxiter first : nat) (early_ok : bool) (steps : list (nat * list Q)).
 
   (* a normal return: for ANY sequence of batch sizes *)
   Theorem C14_normal_return good ev :
-    it_run dec inmem prof n_req budget maxiter first steps = ItOk good ev ->
+    it_run dec inmem prof n_req budget early_ok maxiter first steps = ItOk good ev ->
     (first <= budget)%nat /\ (ev <= budget)%nat /\                                 (* never more than the budget evaluated *)
     exists us acc, accept_idx dec (firstn ev prof) us = Some acc /\ good = firstn n_req acc /\   (* accepted by the rule against everything evaluated *)
                    (length good <= n_req)%nat /\                                     (* at most the request *)
                    ((n_req <= length acc)%nat -> length good = n_req) /\             (* exactly the request when enough passed *)
-                   ((length acc < n_req)%nat -> (budget <= ev)%nat /\ good = acc) /\ (* fewer only when the budget is exhausted *)
+                   ((length acc < n_req)%nat -> ((budget <= ev)%nat \/ early_ok = true) /\ good = acc) /\ (* fewer only when the budget is exhausted or the code's next-batch estimate was not positive *)
                    (inmem = true -> forallb xfinite (firstn ev prof) = true).
-  Proof. exact (it_run_ok dec inmem prof n_req budget maxiter first steps good ev). Qed.
+  Proof. exact (it_run_ok dec inmem prof n_req budget early_ok maxiter first steps good ev). Qed.
 
   (* a library (or budget) too small for the first batch raises *)
   Theorem C14_too_small_raises :
-    (budget < first)%nat -> it_run dec inmem prof n_req budget maxiter first steps = ItRaise ErrTooSmall.
-  Proof. exact (it_run_too_small dec inmem prof n_req budget maxiter first steps). Qed.
+    (budget < first)%nat -> it_run dec inmem prof n_req budget early_ok maxiter first steps = ItRaise ErrTooSmall.
+  Proof. exact (it_run_too_small dec inmem prof n_req budget early_ok maxiter first steps). Qed.
 
   (* running out of iterations is a raise, never a normal-looking value *)
-  Theorem C14_maxiter_raises c st : it_loop dec inmem prof n_req budget 0 c st = ItRaise ErrMaxIter.
-  Proof. exact (it_loop_fuel0 dec inmem prof n_req budget c st). Qed.
+  Theorem C14_maxiter_raises c st : it_loop dec inmem prof n_req budget early_ok 0 c st = ItRaise ErrMaxIter.
+  Proof. exact (it_loop_fuel0 dec inmem prof n_req budget early_ok c st). Qed.
 End C14.
 
 (* evaluated rows are a prefix of an order without repeats: no library row is evaluated twice *)
@@ -50,7 +50,7 @@ Qed.
 (* non-vacuity: two iterations (3 rows, then 5), request 2, budget 6 *)
 Example C14_ex :
   let prof := [XFin (-9#1); XFin (-1#1); XFin (-40#1); XFin (-2#1); XFin (-1#1); XFin (0#1)] in
-  it_run (dec_exp 60) false prof 2 6 128 3 [(3, [(1#2); (1#2); (1#2)]); (2, [(9#10); (1#2); (1#2); (1#3); (1#5)])]%nat
+  it_run (dec_exp 60) false prof 2 6 false 128 3 [(3, [(1#2); (1#2); (1#2)]); (2, [(9#10); (1#2); (1#2); (1#3); (1#5)])]%nat
   = ItOk [1; 3]%nat 5%nat.
 Proof. vm_compute. reflexivity. Qed.
 
